@@ -47,6 +47,12 @@ pub const STATEMENTS: &[&str] = &[
     "{ st 3; } & wait $!; echo $?", "{ echo bg > f7; } & wait", "wait 99999; echo $?", "cat & wait; echo $?", "kill -s TERM $$", "kill -s INT $$; echo unreached",
     "trap 'echo int' INT; kill -s INT $$; echo $?", "(kill -s TERM $$; echo no); echo $?", "{ kill -s KILL $$; } | cat; echo $?", "exit 3", "st 9",
     "trap 'echo chld' CHLD; (exit 1); echo ok; trap - CHLD", "set -e; st 1; echo unreached", "kill -l TERM", "kill -0 $$; echo $?",
+    // (appended later; the fixed prefixes in run() refer to statements by index)
+    // transfers beyond the capacity of a real pipe (64 KiB): writers must block and be woken
+    "gen 150000 1 | cat > huge", "x=$(gen 100000 0); echo ${#x}", "gen 70000 3 | cat | cat >> huge", "{ gen 66000 1; echo tail; } | cat > huge2",
+    // a trapped signal arriving between two forks of one simple command
+    "trap 'echo T1' USR1; x=$(kill -s USR1 $$)$(echo sub; exit 7); echo \"$x $?\"", "trap 'echo T3' USR2; echo $(kill -s USR2 $$; echo a) $(echo b)",
+    "trap 'echo T4' USR1; : $(kill -s USR1 $$) | cat; echo after",
 ];
 
 #[derive(Clone, Debug, PartialEq, Eq, Hash, Serialize, Deserialize)]
@@ -154,6 +160,12 @@ fn check_diff(c: &DiffCase) -> Outcome {
     }
     if virt.log.deadlock {
         return Outcome::fail(ctx("deadlock on the simulated OS".into()));
+    }
+    if real.stalled {
+        return Outcome::fail(format!(
+            "the shell on the real OS deadlocked (every process of the script asleep, no CPU use for {} s; killed) while the simulated run finished with status {} stdout {:?}\nscript:\n{text}",
+            rsys::STALL_SECS, virt.status, virt.stdout
+        ));
     }
     if real.stdout != virt.stdout {
         return Outcome::fail(ctx("stdout differs".into()));
